@@ -18,6 +18,9 @@ HELPERS = [r"intersects::point_in_rect$", r"intersects::value_in_between$"]
 
 
 # ------------------------------------------------------------------ reference geometry (exact, integers)
+RULE = "R2.6"      # the rule id the tables are reported under (C03 reuses the point-location tables as R3.6)
+
+
 def C(x, y):
     return {"x": x, "y": y}
 
@@ -134,7 +137,7 @@ def check(rep, key, F, fn, witnesses, outcome, no_inline=HELPERS, floor=10, wher
     try:
         paths = ex.run(fn)
     except Unanalysable as e:
-        rep.bad("R2.6", key + ":unanalysable", "cannot tabulate the kernel (%s); fail closed" % e, where=fn.loc())
+        rep.bad(RULE, key + ":unanalysable", "cannot tabulate the kernel (%s); fail closed" % e, where=fn.loc())
         return
     rets = [p for p in paths if p.kind == "ret"]
     tree = Tree(rets)
@@ -145,23 +148,23 @@ def check(rep, key, F, fn, witnesses, outcome, no_inline=HELPERS, floor=10, wher
         try:
             hit = tree.select(ev)
             if len(hit) != 1:
-                rep.bad("R2.6", key, "witness %s selects %d rows of the decision table" % (desc, len(hit)), where=fn.loc())
+                rep.bad(RULE, key, "witness %s selects %d rows of the decision table" % (desc, len(hit)), where=fn.loc())
                 return
             got = outcome(ex, ev, hit[0])
         except NoModel as e:
-            rep.bad("R2.6", key + ":non-abstractable", "a decision of the kernel is not a function of orientation signs, coordinate comparisons and verified helpers (%s): exactness and the table are lost" % e, where=fn.loc())
+            rep.bad(RULE, key + ":non-abstractable", "a decision of the kernel is not a function of orientation signs, coordinate comparisons and verified helpers (%s): exactness and the table are lost" % e, where=fn.loc())
             return
         n += 1
         distinct.add(id(hit[0]))
         ok = got in want if isinstance(want, (set, frozenset)) else got == want
         if not ok:
-            rep.bad("R2.6", key, "on the witness %s the kernel's decision table gives %s but exact geometry gives %s  [row: %s]" % (desc, got, want, show_pc(hit[0].pc)[:300]),
+            rep.bad(RULE, key, "on the witness %s the kernel's decision table gives %s but exact geometry gives %s  [row: %s]" % (desc, got, want, show_pc(hit[0].pc)[:300]),
                     where=fn.loc(), detail={"witness": desc, "got": str(got), "want": str(want), "row": show_pc(hit[0].pc)[:800]})
             return
     if n < floor:
-        rep.bad("R2.6", key + ":floor", "only %d witnesses" % n)
+        rep.bad(RULE, key + ":floor", "only %d witnesses" % n)
         return
-    rep.ok("R2.6", "%s[%d witnesses, %d/%d table rows reached]" % (key, n, len(distinct), len(rets)),
+    rep.ok(RULE, "%s[%d witnesses, %d/%d table rows reached]" % (key, n, len(distinct), len(rets)),
            sample={"kernel": key, "witnesses": n, "rows": len(rets), "rows_reached": len(distinct)})
 
 
@@ -212,8 +215,10 @@ def fmt(v):
     return str(v)
 
 
-def run(rep, F, tier):
-    rep.rule("R2.6", "decision tables of the point kernels (Rect, Triangle, Line; intersects / contains / position; bbox helpers; ring crossing step; "
+def run(rep, F, tier, only=None, rule="R2.6"):
+    global RULE
+    RULE = rule
+    rep.rule(RULE, "decision tables of the point kernels (Rect, Triangle, Line; intersects / contains / position; bbox helpers; ring crossing step; "
                      "Polygon and collection composition) agree with exact integer reference geometry on every witness of the catalogue")
     bool_out = lambda ex, ev, p: bool(ev.ev(p.ret))
     # helpers first (compositional): value_in_between, point_in_rect
@@ -228,7 +233,7 @@ def run(rep, F, tier):
              for v, a, b in itertools.product(G3, repeat=3))
         check(rep, "point_in_rect", F, f, w, bool_out, no_inline=[r"intersects::value_in_between$"])
     except KeyError as e:
-        rep.bad("R2.6", "helpers:anchor", str(e))
+        rep.bad(RULE, "helpers:anchor", str(e))
     specs = [
         ("Triangle∩Coord", INTERSECTS, r"triangle::Triangle<T>$", r"coord::Coord<T>$", "intersects", lambda: tri_witnesses(lambda pos: pos != "Outside"), bool_out),
         ("Triangle⊇Coord", CONTAINS, r"triangle::Triangle<T>$", r"coord::Coord<T>$", "contains", lambda: tri_witnesses(lambda pos: pos == "Inside"), bool_out),
@@ -241,24 +246,31 @@ def run(rep, F, tier):
         ("Line.position", COORDPOS_T, r"line::Line<T>$", None, "calculate_coordinate_position", lambda: line_witnesses(lambda pos, l, q: pos, degenerate=False), position_of),
     ]
     for key, trait, sre, are, meth, wit, out in specs:
+        if only is not None and key not in only:
+            continue
         try:
             fn = F.impl_method(trait, sre, are, meth, crates=("geo",))
         except KeyError as e:
-            rep.bad("R2.6", key + ":anchor", str(e))
+            rep.bad(RULE, key + ":anchor", str(e))
             continue
         check(rep, key, F, fn, wit(), out)
-    rect_rect(rep, F, bool_out)
-    ring_step(rep, F)
-    composition(rep, F)
-    polygon_composition(rep, F)
-    container_composition(rep, F)
+    if only is None or "Rect∩Rect" in only:
+        rect_rect(rep, F, bool_out)
+    if only is None or "ring-step" in only:
+        ring_step(rep, F)
+        composition(rep, F)
+    if only is None or "polygon-composition" in only:
+        polygon_composition(rep, F)
+    if only is None:
+        container_composition(rep, F)
+    RULE = "R2.6"
 
 
 def rect_rect(rep, F, bool_out):
     try:
         fn = F.impl_method(INTERSECTS, r"rect::Rect<T>$", r"rect::Rect<T>$", "intersects", crates=("geo",))
     except KeyError as e:
-        rep.bad("R2.6", "Rect∩Rect:anchor", str(e))
+        rep.bad(RULE, "Rect∩Rect:anchor", str(e))
         return
 
     def wit():
@@ -281,13 +293,13 @@ def ring_step(rep, F):
     try:
         fn = F.one(r"^geo::algorithm::coordinate_position::coord_pos_relative_to_ring$", crates=("geo",))
     except KeyError as e:
-        rep.bad("R2.6", "ring-step:anchor", str(e))
+        rep.bad(RULE, "ring-step:anchor", str(e))
         return
     ex = Symex(F, no_inline=HELPERS, loop_bound=1, max_paths=20000)
     try:
         paths = ex.run(fn)
     except Unanalysable as e:
-        rep.bad("R2.6", "ring-step:unanalysable", str(e), where=fn.loc())
+        rep.bad(RULE, "ring-step:unanalysable", str(e), where=fn.loc())
         return
     # paths that consume exactly one edge: one `next` yielding Some, then None
     one = []
@@ -299,7 +311,7 @@ def ring_step(rep, F):
         if vals == [1, 0] or vals == [1]:      # one edge consumed: loop exhausted afterwards, or early return inside it
             one.append((p, nexts[0][0][1]))
     if len(one) < 6:
-        rep.bad("R2.6", "ring-step:rows", "only %d single-edge rows found in the table of coord_pos_relative_to_ring" % len(one), where=fn.loc())
+        rep.bad(RULE, "ring-step:rows", "only %d single-edge rows found in the table of coord_pos_relative_to_ring" % len(one), where=fn.loc())
         return
     next_term = one[0][1]
     edge = ("field", ("as", next_term, "Some"), "0")
@@ -340,10 +352,10 @@ def ring_step(rep, F):
                     if ok:
                         hit.append(p)
             except NoModel as ex2:
-                rep.bad("R2.6", "ring-step:non-abstractable", "a decision of the crossing step is not an orientation sign / coordinate comparison (%s)" % ex2, where=fn.loc())
+                rep.bad(RULE, "ring-step:non-abstractable", "a decision of the crossing step is not an orientation sign / coordinate comparison (%s)" % ex2, where=fn.loc())
                 return
             if len(hit) != 1:
-                rep.bad("R2.6", "ring-step", "edge %s query %s selects %d rows" % (fmt(l), fmt(q), len(hit)), where=fn.loc())
+                rep.bad(RULE, "ring-step", "edge %s query %s selects %d rows" % (fmt(l), fmt(q), len(hit)), where=fn.loc())
                 return
             got = hit[0].ret[2] if hit[0].ret[0] == "adt" else show(hit[0].ret)
             n += 1
@@ -367,10 +379,10 @@ def ring_step(rep, F):
             if got == want_m:
                 conv["mirror"] += 1
     if conv["primary"] == n or conv["mirror"] == n:
-        rep.ok("R2.6", "ring-step[%d edge/query witnesses, %s half-open convention]" % (n, "lower-inclusive" if conv["primary"] == n else "upper-inclusive"),
+        rep.ok(RULE, "ring-step[%d edge/query witnesses, %s half-open convention]" % (n, "lower-inclusive" if conv["primary"] == n else "upper-inclusive"),
                sample={"kernel": "coord_pos_relative_to_ring (one edge)", "witnesses": n, "rows": len(rows)})
     else:
-        rep.bad("R2.6", "ring-step", "the crossing step disagrees with the winding-number rule on %d of %d witnesses; first: %s gives %s, expected %s [row %s]" %
+        rep.bad(RULE, "ring-step", "the crossing step disagrees with the winding-number rule on %d of %d witnesses; first: %s gives %s, expected %s [row %s]" %
                 (n - conv["primary"], n, first_bad[0], first_bad[1], first_bad[2], first_bad[3]), where=fn.loc())
 
 
@@ -379,17 +391,17 @@ def composition(rep, F):
     try:
         fn = F.one(r"^geo::algorithm::coordinate_position::CoordinatePosition::coordinate_position$", crates=("geo",))
     except KeyError as e:
-        rep.bad("R2.6", "combine:anchor", str(e))
+        rep.bad(RULE, "combine:anchor", str(e))
         return
     # the default method must not be overridden
     over = [im["self_ty"] for im in F.impls_of(COORDPOS_T) if any(it["name"] == "coordinate_position" for it in im["items"])]
     if over:
-        rep.bad("R2.6", "combine:overridden", "coordinate_position is overridden for %s" % over[:3])
+        rep.bad(RULE, "combine:overridden", "coordinate_position is overridden for %s" % over[:3])
     ex = Symex(F, no_inline=[r"::calculate_coordinate_position$"])
     try:
         paths = [p for p in ex.run(fn) if p.kind == "ret"]
     except Unanalysable as e:
-        rep.bad("R2.6", "combine:unanalysable", str(e), where=fn.loc())
+        rep.bad(RULE, "combine:unanalysable", str(e), where=fn.loc())
         return
     # after the opaque calculate call the two accumulators are havoc'd: rows decide on (count % 2 == 1) and the flag
     outs = {}
@@ -399,12 +411,12 @@ def composition(rep, F):
         outs[out] = outs.get(out, 0) + 1
         if out == "OnBoundary":
             if not re.search(r"Rem.*2.*== 1\)=1|% 2", s) and "Rem" not in s:
-                rep.bad("R2.6", "combine:boundary", "OnBoundary is not decided by the parity of the boundary count: %s" % s[:200], where=fn.loc())
+                rep.bad(RULE, "combine:boundary", "OnBoundary is not decided by the parity of the boundary count: %s" % s[:200], where=fn.loc())
                 return
     if set(outs) == {"OnBoundary", "Inside", "Outside"}:
-        rep.ok("R2.6", "combine:parity-then-inside-flag", sample=outs)
+        rep.ok(RULE, "combine:parity-then-inside-flag", sample=outs)
     else:
-        rep.bad("R2.6", "combine:table", "final combination has outcomes %s" % outs, where=fn.loc())
+        rep.bad(RULE, "combine:table", "final combination has outcomes %s" % outs, where=fn.loc())
 
 
 # ------------------------------------------------------------------ composition tables
@@ -471,13 +483,13 @@ def container_composition(rep, F):
         try:
             fn = F.impl_method(COORDPOS_T, sre, None, "calculate_coordinate_position", crates=("geo",))
         except KeyError as e:
-            rep.bad("R2.6", "compose:%s:anchor" % name, str(e))
+            rep.bad(RULE, "compose:%s:anchor" % name, str(e))
             continue
         ex = Symex(F, models={TRAIT_M: member_contract_model}, loop_bound=2, max_paths=5000)
         try:
             paths = [p for p in ex.run(fn) if p.kind == "ret"]
         except Unanalysable as e:
-            rep.bad("R2.6", "compose:%s:unanalysable" % name, str(e), where=fn.loc())
+            rep.bad(RULE, "compose:%s:unanalysable" % name, str(e), where=fn.loc())
             continue
         table = {}
         for p in paths:
@@ -487,7 +499,7 @@ def container_composition(rep, F):
             got = final_position(ex, p)
             table.setdefault((POS[mp[0]], POS[mp[1]]), set()).add(got)
         if len(table) < 9:
-            rep.bad("R2.6", "compose:%s:rows" % name, "only %d of the 9 two-member rows found" % len(table), where=fn.loc())
+            rep.bad(RULE, "compose:%s:rows" % name, "only %d of the 9 two-member rows found" % len(table), where=fn.loc())
             continue
         for (p1, p2), gots in sorted(table.items()):
             want = spec(p1, p2)
@@ -495,9 +507,9 @@ def container_composition(rep, F):
                 continue
             key = "compose:%s:(%s,%s)" % (name, p1, p2)
             if gots == {want}:
-                rep.ok("R2.6", key)
+                rep.ok(RULE, key)
             else:
-                rep.bad("R2.6", key, "a coordinate that is %s of one member and %s of another is reported %s, but in the %s it is %s" %
+                rep.bad(RULE, key, "a coordinate that is %s of one member and %s of another is reported %s, but in the %s it is %s" %
                         (p1, p2, "/".join(sorted(gots)), {"MultiPolygon": "union of the (validly touching) polygons", "MultiLineString": "multi line string under the mod-2 boundary rule",
                                                            "GeometryCollection": "collection"}[name], want), where=fn.loc())
 
@@ -507,13 +519,13 @@ def polygon_composition(rep, F):
     try:
         fn = F.impl_method(COORDPOS_T, r"polygon::Polygon<T>$", None, "calculate_coordinate_position", crates=("geo",))
     except KeyError as e:
-        rep.bad("R2.6", "compose:Polygon:anchor", str(e))
+        rep.bad(RULE, "compose:Polygon:anchor", str(e))
         return
     ex = Symex(F, no_inline=[r"coord_pos_relative_to_ring$"], loop_bound=2, max_paths=5000)
     try:
         paths = [p for p in ex.run(fn) if p.kind == "ret"]
     except Unanalysable as e:
-        rep.bad("R2.6", "compose:Polygon:unanalysable", str(e), where=fn.loc())
+        rep.bad(RULE, "compose:Polygon:unanalysable", str(e), where=fn.loc())
         return
     names = [v["name"] for v in F.adts["geo::algorithm::coordinate_position::CoordPos"]["variants"]]
     n = 0
@@ -542,8 +554,8 @@ def polygon_composition(rep, F):
         n += 1
         key = "compose:Polygon:ext=%s,holes=%s" % (ext, ",".join(holes))
         if got == want:
-            rep.ok("R2.6", key)
+            rep.ok(RULE, key)
         else:
-            rep.bad("R2.6", key, "exterior %s / holes %s gives %s, expected %s" % (ext, holes, got, want), where=fn.loc())
+            rep.bad(RULE, key, "exterior %s / holes %s gives %s, expected %s" % (ext, holes, got, want), where=fn.loc())
     if n < 5:
-        rep.bad("R2.6", "compose:Polygon:rows", "only %d rows" % n, where=fn.loc())
+        rep.bad(RULE, "compose:Polygon:rows", "only %d rows" % n, where=fn.loc())
